@@ -330,6 +330,10 @@ func (c *SymCtx) Fresh(hint string, sort Sort) Term {
 // Named declares (once) a constant with a stable name.
 func (c *SymCtx) Named(name string, sort Sort) Term {
 	q := quoteSym(name)
+	if c.external[q] {
+		// a program name (parameter "data") that collides with a function of the spec prelude
+		q = quoteSym(name + "!in")
+	}
 	if !c.declared[q] {
 		c.declared[q] = true
 		c.decls = append(c.decls, Decl{Name: q, Sort: sort})
